@@ -53,7 +53,7 @@ from odml.scripts import odml_convert, odml_to_rdf                              
 from odml.tools.converters.format_converter import FormatConverter              # noqa: E402
 from odml.tools.xmlparser import XMLReader                                       # noqa: E402
 
-WORK = os.path.join(h.WORK, 'c17')
+WORK = os.path.join(h.WORK, 'c17-%d' % os.getpid())     # per process: concurrent runs do not share files
 ODML_NS = 'https://g-node.org/odml-rdf#'
 
 # target formats of the FormatConverter (written down from its documentation; trix is excluded by the statement)
